@@ -17,8 +17,17 @@ CURRENT `self.method` at every access, `_make_step` reads `self.step`, `self.tol
 CURRENT `self.bodies` — so the model's object state is exactly the attribute values (`Cfg`): there is no cache field to
 go stale.  The correspondence run drives real objects through the same histories.
 
-Bodies are (µ, state of the body in the frame of the orbit), constant in time here (the correspondence uses bodies at rest).
-Maneuvers and the `frame` attribute are not in this model (C17 / oracle family `reuse`).
+Bodies are (µ, state [x, y, z, vx, vy, vz] of the body in the frame of the orbit at the date of the bound orbit) in uniform motion:
+`body.propagate(date)` is `position + (date − epoch) · velocity` (the correspondence uses duck-typed bodies doing exactly that), so
+that the stage dates `y_n_prime.date += step * c` of `_make_step` — the `c` column of the tableau — are part of what is compared.
+Maneuvers are not in this model (C17 / oracle family `reuse`).
+
+The `frame` attribute and the bound orbit ARE in the state: `prop.orbit = orb` stores a COPY of `orb` converted to cartesian
+coordinates in the frame `self.frame` names AT THAT MOMENT (`self._orbit = orbit.copy(form="cartesian", frame=self.frame)`);
+`Orbit.propagate` / `Orbit.iter` re-bind at EVERY call (`if self.propagator.orbit is not self` always holds: what is stored is a
+copy).  The frame conversion itself belongs to C02: here the caller's orbit is given as its cartesian state in each frame it
+may be converted to (`views`, computed by the real code in the correspondence run), and the model says WHICH view is stored,
+under which frame name, and from which stored state the next step is made.
 -/
 namespace KN
 
@@ -28,13 +37,29 @@ structure Cfg where
   step : R
   tol : R
   bodies : List (R × List R)
+  /-- `self.frame`: the name of the frame the integration runs in -/
+  frame : String := "EME2000"
+  /-- `self._orbit`: (name of the frame it was converted to, cartesian state in that frame); `none` = never bound -/
+  bound : Option (String × List R) := none
 
 /-- `str.lower()` on ASCII names -/
 def lowerAscii (s : String) : String := String.ofList (s.toList.map Char.toLower)
 
 /-- `KeplerNum(step, bodies, method=method, tol=tol)`: `self.method = method.lower()` -/
-def Cfg.init (step : R) (bodies : List (R × List R)) (method : String) (tol : R) : Cfg :=
-  { method := lowerAscii method, step := step, tol := tol, bodies := bodies }
+def Cfg.init (step : R) (bodies : List (R × List R)) (method : String) (tol : R) (frame : String := "EME2000") : Cfg :=
+  { method := lowerAscii method, step := step, tol := tol, bodies := bodies, frame := frame, bound := none }
+
+/-- `body.propagate(date)` for a body in uniform motion, `t` seconds after the date of the orbit -/
+def bodyAt (t : R) (b : R × List R) : R × List R :=
+  (b.1, vadd (b.2.take 3) (smul t (b.2.drop 3)) ++ b.2.drop 3)
+
+/-- the right-hand side the object integrates NOW: `_accel` over the CURRENT `self.bodies`, each at the date of the stage -/
+def Cfg.field (c : Cfg) : R → List R → List R := fun t y => accel (c.bodies.map (bodyAt t)) y
+
+/-- the view of the caller's orbit in the frame `f` (`orbit.copy(form="cartesian", frame=f)`), `none` = UnknownFrameError -/
+def viewIn (f : String) : List (String × List R) → Option (List R)
+  | [] => none
+  | (g, y) :: rest => if g = f then some y else viewIn f rest
 
 /-- what user code does with the object between two calls, and the calls themselves -/
 inductive Op where
@@ -56,6 +81,15 @@ inductive Op where
   | makeStep (y : List R) (h : R)
   /-- `prop.butcher` -/
   | readButcher
+  /-- `prop.frame = f` -/
+  | setFrame (f : String)
+  /-- `prop.orbit = orb` (what `Orbit.propagate` / `Orbit.iter` do first, at every call); `views` = `orb` as cartesian state in
+  each candidate frame -/
+  | bind (views : List (String × List R))
+  /-- `prop._make_step(prop.orbit, timedelta(seconds=h))`: one step from the BOUND orbit -/
+  | stepBound (h : R)
+  /-- `prop.orbit` -/
+  | readOrbit
 
 /-- what a call returns (`quiet` for the assignments) -/
 inductive Out where
@@ -67,6 +101,12 @@ inductive Out where
   | tableau (tb : Tableau)
   /-- `[].pop()` raised IndexError -/
   | indexError
+  /-- `orbit.copy(frame=self.frame)` raised UnknownFrameError -/
+  | unknownFrame
+  /-- `_make_step(None, …)`: AttributeError (no orbit bound) -/
+  | attrError
+  /-- `prop.orbit`: `none` = `None` -/
+  | orbit (b : Option (String × List R))
 
 /-- the object after an operation -/
 def Cfg.next (c : Cfg) : Op → Cfg
@@ -76,9 +116,16 @@ def Cfg.next (c : Cfg) : Op → Cfg
   | .setBodies bs => { c with bodies := bs }
   | .addBody b => { c with bodies := c.bodies ++ [b] }
   | .dropBody => { c with bodies := c.bodies.dropLast }
-  | .copy => Cfg.init c.step c.bodies c.method c.tol
+  | .copy => Cfg.init c.step c.bodies c.method c.tol c.frame
   | .makeStep _ _ => c
   | .readButcher => c
+  | .setFrame f => { c with frame := f }
+  | .bind views =>
+    match viewIn c.frame views with
+    | some y => { c with bound := some (c.frame, y) }
+    | none => c                     -- the setter raised before assigning: `_orbit` keeps its former value
+  | .stepBound _ => c
+  | .readOrbit => c
 
 /-- what an operation returns on an object whose attributes are `c`: the tableau is selected by the CURRENT method,
 the field is that of the CURRENT bodies, the step bound and the tolerance are the CURRENT ones -/
@@ -86,12 +133,22 @@ def Cfg.out (c : Cfg) : Op → Out
   | .makeStep y h =>
     match butcher c.method with
     | none => .keyError
-    | some tb => .stepped (makeStep (fun _ y => accel c.bodies y) tb c.step c.tol 0 y maxIter h)
+    | some tb => .stepped (makeStep c.field tb c.step c.tol 0 y maxIter h)
   | .readButcher =>
     match butcher c.method with
     | none => .keyError
     | some tb => .tableau tb
   | .dropBody => if c.bodies.isEmpty then .indexError else .quiet
+  | .bind views => if (viewIn c.frame views).isSome then .quiet else .unknownFrame
+  | .stepBound h =>
+    -- `_make_step` looks the tableau up first (`self.butcher["a"]`: KeyError), then copies the orbit (`None.copy()`: AttributeError)
+    match butcher c.method with
+    | none => .keyError
+    | some tb =>
+      match c.bound with
+      | none => .attrError
+      | some (_, y) => .stepped (makeStep c.field tb c.step c.tol 0 y maxIter h)
+  | .readOrbit => .orbit c.bound
   | _ => .quiet
 
 /-- the object after a history -/
